@@ -70,5 +70,7 @@ finally:
 old = {}
 if os.path.exists(os.path.join(dst, "meta.json")):
     old = json.load(open(os.path.join(dst, "meta.json")))
+if old.get("checks_result") and meta.get("checks_result") and old["checks_result"] != meta["checks_result"] and any(v.get("rc") != 1 for k, v in old["checks_result"].items() if k == prop):
+    meta["checks_result_before_strengthening"] = old.get("checks_result_before_strengthening", old["checks_result"])
 old.update(meta)
 json.dump(old, open(os.path.join(dst, "meta.json"), "w"), indent=1)
